@@ -934,6 +934,41 @@ def run(ctx):
         ctx.check(okf, 'C18.R12', 'PolicyDirectoryMonitor.scan_policies|removed-file-timestamp-forgotten', '%s:%s PolicyDirectoryMonitor.scan_policies' % (MONITOR, lp.lineno),
                   'the modification time of a file that disappeared is dropped with its policies', 'a file that disappears keeps its entry in self.file_timestamps: if it reappears unchanged it is never loaded again')
 
+    # ---------------- R13 the directory listing shows every .json file
+    ctx.rule('C18.R13', 'the listing the scan works from names every *.json entry of the policy directory, whatever the file holds: get_json_files folded over a directory with an empty file, a one-byte file, a large file, an unreadable-looking name and two non-JSON names (os.listdir / os.path.* modelled on that directory) returns exactly the paths of the entries ending in .json - a file left out of the listing is treated as REMOVED (its policies are withdrawn or an older definition is restored) instead of being read and rejected as invalid, which would have left the loaded policies untouched')
+    from ..fold import Folder as _Folder, Unfoldable as _Unf, Raised as _Rai
+    mt = src.tree(MONITOR)
+    gjf = [f_ for f_ in mt.body if isinstance(f_, ast.FunctionDef) and f_.name == 'get_json_files']
+    ctx.need(len(gjf) == 1, 'unrecognised construct: get_json_files not found in %s' % MONITOR)
+    DIR = {'empty.json': 0, 'one.json': 1, 'big.json': 5000000, '.hidden.json': 20, 'b.json~': 20, 'notes.txt': 20, 'json': 3}
+    import posixpath as _pp
+
+    def _base(p_):
+        return _pp.basename(p_) if isinstance(p_, str) else p_
+    models13 = {
+        'os.listdir': lambda p_='.': list(DIR), 'os.path.join': lambda *a: _pp.join(*a), 'os.path.getsize': lambda p_: DIR[_base(p_)],
+        'os.path.isfile': lambda p_: _base(p_) in DIR, 'os.path.isdir': lambda p_: False, 'os.path.exists': lambda p_: _base(p_) in DIR,
+        'os.path.islink': lambda p_: False, 'os.path.getmtime': lambda p_: 1000.0, 'os.path.basename': _pp.basename,
+        'os.path.splitext': _pp.splitext, 'os.path.abspath': lambda p_: p_, 'os.path.normpath': _pp.normpath, 'os.access': lambda *a: True,
+        'glob.glob': lambda pat: sorted(_pp.join(_pp.dirname(pat), x) for x in DIR if __import__('fnmatch').fnmatch(x, _pp.basename(pat))),
+        'fnmatch.fnmatch': lambda n_, pat: __import__('fnmatch').fnmatch(n_, pat), 'sorted': sorted,
+    }
+    want13 = sorted(_pp.join('/policies', x) for x in DIR if x.endswith('.json'))
+    fo13 = _Folder(models=models13, steps=20000)
+    fo13.module = mt
+    try:
+        got13 = fo13.call_function(gjf[0], ['/policies'], {})
+        got13 = list(got13) if isinstance(got13, (list, tuple)) else got13
+    except (_Unf, _Rai) as ex13:
+        raise AnalysisError('unrecognised construct: get_json_files cannot be folded over the model directory (%s)' % ex13)
+    ok13 = isinstance(got13, list) and sorted(got13) == want13
+    missing13 = [x for x in want13 if not isinstance(got13, list) or x not in got13]
+    ctx.check(ok13, 'C18.R13', 'get_json_files|lists-every-json-file', '%s:%s get_json_files' % (MONITOR, gjf[0].lineno),
+              'every *.json entry of the model directory is listed (%d of %d entries), nothing else' % (len(want13), len(DIR)),
+              'get_json_files does not list exactly the *.json entries of the directory: missing %s, extra %s - a policy file that is left out is handled as removed, not rejected'
+              % ([_pp.basename(x) for x in missing13], [x for x in (got13 if isinstance(got13, list) else []) if x not in want13][:3]))
+    ctx.analysed['directory_entries_in_listing_model'] = len(DIR)
+
     # ---------------- R2 shape taint in the parser
     pt = src.tree(POLICY)
     n_ops = 0
